@@ -50,6 +50,12 @@ func histWorlds() []histWorld {
 		{Name: "intersection+wildcard", Type: "doc", Rel: "r0", U: ref.Universe{"user": {"user:a"}, "doc": {"doc:1", "doc:2"}},
 			M:    &ref.Model{Types: map[string]map[string]*ref.RelDef{"user": {}, "doc": {"r1": rd(ref.This(), wild), "r0": rd(ref.Bin(ref.KInter, ref.This(), ref.Comp("r1")), user)}}},
 			Pool: []ref.Tuple{tp("doc:1", "r0", "user:a"), tp("doc:1", "r1", "user:*"), tp("doc:2", "r1", "user:*")}},
+		{Name: "recursive-ttu", Type: "doc", Rel: "r0", U: ref.Universe{"user": {"user:a"}, "doc": {"doc:1", "doc:2"}},
+			M:    &ref.Model{Types: map[string]map[string]*ref.RelDef{"user": {}, "doc": {"parent": rd(ref.This(), ref.Restr{Type: "doc"}), "r0": rd(ref.Bin(ref.KUnion, ref.This(), ref.TTU("parent", "r0")), user)}}},
+			Pool: []ref.Tuple{tp("doc:1", "parent", "doc:2"), tp("doc:2", "r0", "user:a"), tp("doc:2", "parent", "doc:1")}},
+		{Name: "userset+computed", Type: "doc", Rel: "r0", U: ref.Universe{"user": {"user:a"}, "group": {"group:1"}, "doc": {"doc:1", "doc:2"}},
+			M:    &ref.Model{Types: map[string]map[string]*ref.RelDef{"user": {}, "group": {"member": rd(ref.This(), user)}, "doc": {"r1": rd(ref.This(), member), "r0": rd(ref.Bin(ref.KUnion, ref.Comp("r1"), ref.This()), user)}}},
+			Pool: []ref.Tuple{tp("doc:1", "r1", "group:1#member"), tp("group:1", "member", "user:a"), tp("doc:2", "r0", "user:a")}},
 		{Name: "recursive-userset", Type: "group", Rel: "member", U: ref.Universe{"user": {"user:a"}, "group": {"group:1", "group:2"}},
 			M:    &ref.Model{Types: map[string]map[string]*ref.RelDef{"user": {}, "group": {"member": rd(ref.This(), user, member)}}},
 			Pool: []ref.Tuple{tp("group:1", "member", "group:2#member"), tp("group:2", "member", "user:a"), tp("group:1", "member", "user:a")}},
